@@ -6,10 +6,12 @@ A specification is JSON so that every violation has a concrete, shrinkable, repl
 """
 from __future__ import annotations
 
+import contextlib
 import io
 import math
 import random
 import re
+import signal
 from typing import Any, Callable, Iterator
 
 SEP = '\x1b'
@@ -310,11 +312,191 @@ def gen_spec(rng: random.Random, size: str = 'm') -> dict:
         'brushes': [gen_solid(rng, nasty, n_vis, n_grp, True, disp_p) for _ in range(rng.randint(0, 2 * scale))],
         'entities': [gen_entity(rng, nasty, n_vis, n_grp, disp_p) for _ in range(rng.randint(0, 3 * scale))],
     }
+    spec['ids'] = gen_ids(rng, spec['opts']['preserve_ids']) if rng.random() < 0.45 else None
     for _ in range(rng.choice([0, 1, 3])):
         k = rng.choice(['skyname', 'detailmaterial', 'maxpropscreenwidth', 'targetname', rstr(rng, nasty * 0.5, lo=1)])
         if key_ok(k) and k.casefold() not in {x.casefold() for x in spec['world_keys']} and k.casefold() != 'classname':
             spec['world_keys'][k] = rstr(rng, nasty)
     return spec
+
+
+class Timeout(Exception):
+    """A call into the implementation did not return in time (a fault that makes it loop): treated as a failing input."""
+
+
+@contextlib.contextmanager
+def time_limit(seconds: int):
+    """Alarm around a call into the implementation. Only in the main thread of the check process (SIGALRM)."""
+    def handler(signum, frame):
+        raise Timeout(f'no answer within {seconds} s')
+    try:
+        old = signal.signal(signal.SIGALRM, handler)
+    except ValueError:          # not in the main thread: no limit
+        yield
+        return
+    signal.alarm(seconds)
+    try:
+        yield
+    finally:
+        signal.alarm(0)
+        signal.signal(signal.SIGALRM, old)
+
+
+# ------------------------------------------------------------------------------------------------ ID schemes
+# Every block that carries an ID: entity (and worldspawn), solid, side, group, visgroup, and the `nodeid` key of an entity.
+# A scheme gives object number i of a kind (file order) the ID  start + step * (i mod wrap)  (wrap None: no wrap-around).
+# Hammer counts from 1; generated and hand-edited maps count from 0, leave gaps, use huge numbers and -- when IDs are
+# preserved -- repeat numbers.  -1 is the API's "no ID given" (every parse method looks the key up with default -1) and is
+# therefore not an ID a map can carry; negative numbers are not IDs either (Entity.parse takes an `id` key as the ID only when
+# its value is all digits): the schemes produce naturals.
+ID_KINDS = ('ent', 'solid', 'face', 'group', 'vis', 'node')
+
+
+def scheme_id(sch: list, i: int) -> int:
+    start, step, wrap = sch
+    return start + step * (i % wrap if wrap else i)
+
+
+def gen_ids(rng: random.Random, preserve: bool) -> dict:
+    """`route` object: the IDs are assigned to the built objects (attribute `id`, references remapped) before the first export;
+    `route` text: the first exported text is renumbered consistently and parsed (with the map's preserve_ids option): the
+    parsed map is the one under test, and with preserve_ids its export must be the renumbered text itself.
+    Without preserve_ids the IDs stay positive and unique (then "consistent renumbering" is well defined)."""
+    ids: dict[str, Any] = {'route': rng.choice(['object', 'text'])}
+    for kind in ID_KINDS:
+        if rng.random() < 0.25:
+            continue
+        if preserve:
+            start = rng.choice([0, 0, 0, 1, 2, 17, 1000000, 2147483647, 4294967296])
+            step = rng.choice([1, 1, 2, 7, 1000])
+            wrap = rng.choice([None, None, None, 1, 2, 3]) if kind != 'group' else None    # VMF.groups is keyed by ID
+        else:
+            start = rng.choice([1, 1, 2, 17, 1000000, 2147483647])
+            step = rng.choice([1, 2, 7, 1000])
+            wrap = None
+        ids[kind] = [start, step, wrap]
+    return ids
+
+
+def apply_ids_to_objects(vmf, ids: dict) -> None:
+    """Route `object`: give every ID-carrying object its scheme ID through the public attribute, keep references consistent."""
+    ents = [vmf.spawn] + list(vmf.entities)
+    solids = [s for e in ents for s in e.solids]
+    if 'ent' in ids:
+        for i, e in enumerate(ents):
+            e.id = scheme_id(ids['ent'], i)
+    if 'solid' in ids:
+        for i, s in enumerate(solids):
+            s.id = scheme_id(ids['solid'], i)
+    if 'face' in ids:
+        for i, f in enumerate(f for s in solids for f in s.sides):
+            f.id = scheme_id(ids['face'], i)
+    if 'vis' in ids:
+        m: dict[int, int] = {}
+
+        def walk(vs: list) -> None:
+            for v in vs:
+                new = scheme_id(ids['vis'], len(m))
+                m[v.id] = new
+                v.id = new
+                walk(v.child_groups)
+        walk(vmf.vis_tree)
+        for x in ents + solids:
+            x.visgroup_ids = {m.get(k, k) for k in x.visgroup_ids}
+    if 'group' in ids:
+        g: dict[int, int] = {}
+        new_groups = {}
+        for i, (k, grp) in enumerate(list(vmf.groups.items())):
+            g[k] = grp.id = scheme_id(ids['group'], i)
+            new_groups[grp.id] = grp
+        vmf.groups.clear()
+        vmf.groups.update(new_groups)
+        for e in ents:
+            e.groups = {g.get(k, k) for k in e.groups}
+        for s in solids:
+            if s.group_id is not None:
+                s.group_id = g.get(s.group_id, s.group_id)
+
+
+_ID_LINE = re.compile(r'(\s*)"(id|visgroupid|groupid|nodeid)" "(-?\d+)"')
+
+
+def map_ids(text: str, ren: Callable[[str, str], str | None]) -> str:
+    """Rewrite every ID-carrying line of exported text: ren(kind, old) -> new (None: keep).  Kinds: ent, solid, face, group, vis, node."""
+    stack: list[str] = []
+    last = ''
+    out = []
+    for line in text.split('\n'):
+        s = line.strip()
+        if s == '{':
+            stack.append(last)
+        elif s == '}':
+            if stack:
+                stack.pop()
+        else:
+            m = _ID_LINE.fullmatch(line)
+            if m:
+                key = m.group(2)
+                blk = stack[-1] if stack else ''
+                if key == 'id':
+                    kind = {'solid': 'solid', 'side': 'face', 'entity': 'ent', 'world': 'ent', 'group': 'group'}.get(blk)
+                elif key == 'nodeid':
+                    kind = 'node' if blk == 'entity' else None
+                else:
+                    kind = 'vis' if key == 'visgroupid' else 'group'
+                new = ren(kind, m.group(3)) if kind else None
+                if new is not None:
+                    line = f'{m.group(1)}"{key}" "{new}"'
+        last = s.strip('"')
+        out.append(line)
+    return '\n'.join(out)
+
+
+def id_skeleton(text: str) -> list[tuple]:
+    """The ID-carrying lines of a text in file order: ('def:<kind>', value) for the ID of an object, ('ref:<kind>', sorted set of
+    values) for a run of membership lines (a membership set has no order and no repetitions)."""
+    out: list[tuple] = []
+    stack: list[str] = []
+    last = ''
+    for line in text.split('\n'):
+        s = line.strip()
+        if s == '{':
+            stack.append(last)
+        elif s == '}':
+            if stack:
+                stack.pop()
+        else:
+            m = _ID_LINE.fullmatch(line)
+            if m:
+                key, blk = m.group(2), (stack[-1] if stack else '')
+                if key == 'id' and blk in ('solid', 'side', 'entity', 'world', 'group'):
+                    out.append(('def:' + {'side': 'face', 'entity': 'ent', 'world': 'ent'}.get(blk, blk), int(m.group(3))))
+                elif key == 'nodeid' and blk == 'entity':
+                    out.append(('def:node', int(m.group(3))))
+                elif key == 'visgroupid' and blk == 'visgroup':
+                    out.append(('def:vis', int(m.group(3))))
+                elif key in ('visgroupid', 'groupid') and blk == 'editor':
+                    kind = 'ref:vis' if key == 'visgroupid' else 'ref:group'
+                    if out and out[-1][0] == kind and last.startswith(key):
+                        out[-1] = (kind, tuple(sorted(set(out[-1][1]) | {int(m.group(3))})))
+                    else:
+                        out.append((kind, (int(m.group(3)),)))
+        last = s.strip('"')
+    return out
+
+
+def rewrite_ids(text: str, ids: dict) -> str:
+    """Route `text`: consistent renumbering of the exported text by the schemes (definition and references alike)."""
+    maps: dict[str, dict[str, int]] = {}
+
+    def ren(kind: str, old: str) -> str | None:
+        if kind not in ids:
+            return None
+        m = maps.setdefault(kind, {})
+        if old not in m:
+            m[old] = scheme_id(ids[kind], len(m))
+        return str(m[old])
+    return map_ids(text, ren)
 
 
 # ------------------------------------------------------------------------------------------------ builder
@@ -471,6 +653,9 @@ def build(spec: dict):
             ent.add_out(Output(o['out'], o['targ'], o['inp'], o['param'], o['delay'], times=o['times'],
                                inst_out=o['inst_out'], inst_in=o['inst_in'], comma_sep=o['comma']))
         vmf.add_ent(ent)
+    ids = spec.get('ids')
+    if ids and ids.get('route') == 'object':
+        apply_ids_to_objects(vmf, ids)
     return vmf
 
 
@@ -874,12 +1059,49 @@ def check_vmf(vmf, opts: dict) -> list[tuple[str, str, dict]]:
     return out
 
 
+SPEC_LIMIT = 150      # seconds per specification; the largest generated map takes about 2 s on a loaded machine
+
+
 def check_spec(spec: dict) -> list[tuple[str, str, dict]]:
+    """Build, (renumber,) export, parse, compare, export again -- under an alarm: a fault that makes the implementation
+    loop ends as a violation with this specification as the failing input, not as a hung check."""
+    try:
+        with time_limit(SPEC_LIMIT):
+            return _check_spec(spec)
+    except Timeout as e:
+        return [('hang:round-trip', f'building / exporting / parsing the map did not finish: {e}', {})]
+
+
+def _check_spec(spec: dict) -> list[tuple[str, str, dict]]:
     try:
         vmf = build(spec)
     except Exception as e:   # the public API refused the specification: not a round-trip matter
         return [('build-error:' + err_class(e), f'building the map raised {type(e).__name__}: {e}', {})]
-    return check_vmf(vmf, spec['opts'])
+    opts = spec['opts']
+    pre: list[tuple[str, str, dict]] = []
+    ids = spec.get('ids')
+    if ids and ids.get('route') == 'text':
+        # the map under test is the one parsed from the consistently renumbered text; when IDs are to be preserved its export
+        # is that text itself (every ID-carrying line keeps its number), otherwise it is that text up to renumbering
+        try:
+            t0 = rewrite_ids(export_text(vmf, opts), ids)
+        except Exception as e:
+            return [('export-error:' + err_class(e), f'VMF.export raised {type(e).__name__}: {e}', {})]
+        try:
+            vmf = parse_text(t0, opts)
+            t1 = export_text(vmf, opts)
+        except Exception as e:
+            return [('parse-error:' + err_class(e), f'parsing / re-exporting the renumbered text raised {type(e).__name__}: {e}', {})]
+        a, b = (t0, t1) if opts.get('preserve_ids') else (renumber(t0), renumber(t1))
+        sa, sb = id_skeleton(a), id_skeleton(b)
+        if sa != sb:
+            i = next((i for i, (x, y) in enumerate(zip(sa, sb)) if x != y), min(len(sa), len(sb)))
+            x = sa[i] if i < len(sa) else '<end>'
+            y = sb[i] if i < len(sb) else '<end>'
+            kind = (x if x != '<end>' else y)[0]
+            pre.append((f'ids:{kind}', f'parse(preserve_ids={bool(opts.get("preserve_ids"))}) of a text, then export: ID-carrying line number {i} '
+                        f'(kind, value(s)) {x!r} became {y!r}', {'index': i, 'first': repr(x), 'second': repr(y)}))
+    return pre + check_vmf(vmf, opts)
 
 
 # ------------------------------------------------------------------------------------------------ shrinking
